@@ -59,7 +59,35 @@ func (p *Parser) registerExpressionParsers() {
 	}
 }
 
+// MaxNestingDepth bounds how deep expressions and blocks may nest, and how high an expression
+// tree may grow (every operator pushes its operands one level down, so a chain of operators
+// counts like nesting). The parser is recursive, and so is everything that walks the tree it
+// produces: without a bound a source of some megabytes of "(", "!" or "{" exhausts the goroutine
+// stack, which is a fatal error that cannot be recovered.
+const MaxNestingDepth = 100000
+
+// deepen notes that parsing goes one level down; callers restore p.depth when they come back up.
+func (p *Parser) deepen() error {
+	p.depth++
+	if p.depth > MaxNestingDepth {
+		return NestingTooDeep(p.curToken)
+	}
+	return nil
+}
+
 func (p *Parser) ParseExpression(precedence int) (ast.Expression, error) {
+	depth := p.depth
+	defer func() { p.depth = depth }()
+	if err := p.deepen(); err != nil {
+		return nil, errors.WithStack(err)
+	}
+
+	// p.height collects the height of the tallest expression completed below the current one,
+	// height is that of the tree being built here
+	outer, height := p.height, 1
+	p.height = 0
+	defer func() { p.height = max(outer, height) }()
+
 	// Note: trim comment inside expression list
 	// For example:
 	// if (req.http.Foo && /* comment */ req.http.Bar) { ... } // -> trim  /* comment */ token
@@ -77,6 +105,7 @@ func (p *Parser) ParseExpression(precedence int) (ast.Expression, error) {
 	if err != nil {
 		return nil, errors.WithStack(err)
 	}
+	height += p.height
 
 	// same as prefix expression
 	for !p.PeekTokenIs(token.SEMICOLON) && precedence < p.peekPrecedence() {
@@ -88,6 +117,9 @@ func (p *Parser) ParseExpression(precedence int) (ast.Expression, error) {
 				if err != nil {
 					return nil, errors.WithStack(err)
 				}
+				if height++; height > MaxNestingDepth {
+					return nil, errors.WithStack(NestingTooDeep(p.curToken))
+				}
 				continue
 			}
 			return left, nil
@@ -95,9 +127,13 @@ func (p *Parser) ParseExpression(precedence int) (ast.Expression, error) {
 
 		SwapLeadingTrailing(p.peekToken, left.GetMeta())
 		p.NextToken()
+		p.height = 0
 		left, err = infix(left)
 		if err != nil {
 			return nil, errors.WithStack(err)
+		}
+		if height = max(height, p.height) + 1; height > MaxNestingDepth {
+			return nil, errors.WithStack(NestingTooDeep(p.curToken))
 		}
 		continue
 	}
